@@ -255,9 +255,20 @@ def run_builder_check(pid, gen_cases, oracle_fn, fields=None, truncate_at_leak=T
                         break
                 else:
                     validated += 1
+    # the specification-side interpreter (Coq) against the judging oracle (Python), on the programs the implementation emitted
+    interp_n = 0
+    if pid in ("C01", "C02", "C07") and not run.replay:
+        programs = []
+        for (dp, cmds), steps in list(zip(cases, impl))[: (400 if run.thorough else 80)]:
+            prog = [l for s in steps for l in s["lines"]]
+            if prog and all(l is not None for l in prog):
+                programs.append(prog)
+        interp_n, diff = interp_crosscheck(pid, programs)
+        if diff:
+            run.violation(diff, dict(theorem=theorem_names, correspondence="model/Interp.v vs harness/oracle.py"), no_input=True)
     proof_broken_violation(run, st, found_input)
     run.cov["rule"] = rule + " non-trivial = history with >= 3 distinct call kinds and >= 1 emitted line; distinct = distinct (dp, history)."
-    ev = dict(oracle_only_histories=n_oracle_only, input_distribution=dict(op_kinds=opcount, exceptions=exccount, history_length_buckets=lens,
+    ev = dict(oracle_only_histories=n_oracle_only, programs_read_by_both_interpreters=interp_n, input_distribution=dict(op_kinds=opcount, exceptions=exccount, history_length_buckets=lens,
                                       histories_truncated_at_a_C05_leak=truncated,
                                       histories_where_the_property_breaks_after_a_recorded_C05_leak=after_leak_seen[0]),
               traces_validated_against_impl=validated)
